@@ -4,7 +4,7 @@
   bodies as interaction programs over inventory steps, and a fault plan (C06, C07; DESIGN §8).
 
   Mirrors:
-    git_handlers.rs  handle_git (parse → find_repository → run_pre_command_hooks → proxy_to_git →
+    git_handlers.rs  handle_git (parse → find_repository → alias resolution → run_pre_command_hooks → proxy_to_git →
                      run_post_command_hooks → exit_with_status), run_pre/post_command_hooks
                      (disable_internal_git_hooks guard, catch_unwind), proxy_to_git, exit_with_status
     commit_hooks.rs  commit_pre_command_hook (the `exit(1)` path)
@@ -407,6 +407,9 @@ def execProg (K : GitKernel) : Prog → St → End × St
 
 /-- git-ai's code around the child git, as programs over inventory steps. -/
 structure Hooks where
+  /-- `resolve_alias_invocation` (C18's alias model): the parsed invocation after git-ai's alias expansion; the
+      identity when no alias applies. The hooks are chosen by, and the child is started on, the RESOLVED invocation. -/
+  alias : Cli.Parsed → Cli.Parsed
   /-- `find_repository`, `RepoStorage::for_ai_dir` (unwrap), config, alias resolution — NOT under catch_unwind -/
   prologue : Cli.Parsed → Prog
   /-- the closure of `run_pre_command_hooks` (under catch_unwind, guard alive) -/
@@ -440,7 +443,7 @@ def panicStatus : Nat := 101
 
 /-- `handle_git` in wrapper mode. `exit_status` is bound once from the child and only mirrored. -/
 def run (K : GitKernel) (H : Hooks) (argv : List Str) (w : World) (plan : Plan) : Outcome :=
-  let p := Cli.parse argv
+  let p := H.alias (Cli.parse argv)
   let argv' := Cli.toVec p
   match execProg K (H.prologue p) ⟨w, plan, false⟩ with
   | (.killed, s) => ⟨s.w, killStatus, [], .killedBeforeGit, s.diag, argv', s.w⟩
